@@ -65,6 +65,12 @@ CHECKS["C09"] = dict(
     text="From every valid tour of small instances every admitted move / every move the random-move sampler or a bundled policy (DACT, NeuOpt, N2S) can emit under any sampler answer is applied with the real step function, up to depth 3 (quick) / 4; each transition is judged for tour validity, precedence, exact current / best-so-far cost, monotone bsf, reward = decrease and visited_time consistency.",
     ref="DESIGN.md section 4 C09",
 )
+CHECKS["C11"] = dict(
+    engine="E1 EnvExplorer + E3 ChoiceExplorer",
+    technique="complete enumeration of all feasible action sequences (exhaustive env tree) through evaluate mode + stateless exhaustive enumeration of every sampler answer inside policy.forward (RNG seam); global normalisation oracle and per-step reference from raw decoder logits",
+    text="For each bundled constructive policy x environment x small instance ALL complete feasible sequences are evaluated; their exp(log-likelihood) must sum to one, per-step values must equal an independent masked log-softmax of the decoder logits, and every trajectory the sampling / greedy / multistart decoders can emit under any multinomial answer must carry exactly the evaluate-mode log-likelihood, reward and entropy (PPO ratio 1).",
+    ref="DESIGN.md section 4 C11",
+)
 
 NOT_YET = {}
 
